@@ -66,6 +66,7 @@ func (c20) Generate(r *core.Rng, run int, tier string) *core.History {
 		// session mode
 		h.Flags["session"] = true
 		flags := gen.SwarmFlags(r.Sub("flags"))
+		flags.GlobalWrites = false // no del(name) from functions: the model learns names from the globals after each input
 		h.Cfg["maxdepth"] = 1000
 		g := gen.New(r.Sub("gen"), flags)
 		bg := newBaseGen(g, sessCfgOf(h))
